@@ -113,6 +113,22 @@ func genC15(t *rapid.T) C15Case {
 	return c
 }
 
+// failingWriter accepts a number of bytes and then fails every write.
+type failingWriter struct {
+	after  int
+	n      int
+	failed bool
+}
+
+func (w *failingWriter) Write(p []byte) (int, error) {
+	if w.n+len(p) > w.after {
+		w.failed = true
+		return 0, fmt.Errorf("sink closed")
+	}
+	w.n += len(p)
+	return len(p), nil
+}
+
 func decoderPanic(stack string) bool {
 	for _, f := range []string{"vm.intSplit", "vm.instructionSplit", "vm.opSplit", "vm.parseSym", "vm.parseTwoSym", "vm.parseSig", "vm.parseNoArg",
 		"vm.ParseOp", "vm.ParseLoad", "vm.ParseCatch", "vm.ParseCroak", "vm.ParseReload", "vm.ParseMap", "vm.ParseMove", "vm.ParseHalt",
@@ -234,6 +250,25 @@ func checkBytes(b []byte) (v *Violation, rejectedByRef bool, classes []string) {
 			back, rerr := readListing(text)
 			if rerr != nil || !refdec.Equal(back, want) {
 				return viol("tostring-list", "ToString on %x lists %q (%v), the input holds %v", b, text, rerr, want), rejectedByRef, classes
+			}
+		}
+	}
+	// the disassembler writing to a sink that stops accepting data: whatever it does about
+	// the sink, malformed input is still not a success
+	if derr != nil {
+		for _, after := range []int{0, 1, 9, 40} {
+			var werr error
+			w := &failingWriter{after: after}
+			if p := catchPanic(func() {
+				_, werr = vm.NewParseHandler().WithDefaultHandlers().WithWriter(w).ParseAll(append([]byte{}, b...))
+			}); p != nil {
+				return &Violation{Kind: "panic-parseall", Msg: fmt.Sprintf("ParseAll with a failing writer panics on %x: %s", b, p.val), Detail: p.stack}, rejectedByRef, classes
+			}
+			if werr == nil {
+				return viol("silent-accept-parseall", "ParseAll writing to a sink that fails after %d bytes reports success on %x, which is malformed: %v", after, b, derr), rejectedByRef, classes
+			}
+			if w.failed {
+				classes = append(classes, "sink-failed-before-malformed-tail")
 			}
 		}
 	}
@@ -390,6 +425,10 @@ func TestC15(t *testing.T) {
 		return
 	}
 	RunProp(t, "C15", "mut", pick(12000, 120000), genC15, checkC15)
+	if t.Failed() {
+		return
+	}
+	runC15Cli(t)
 	if t.Failed() {
 		return
 	}
